@@ -60,8 +60,3 @@ def run(tier: str, seed: int) -> int:
         "loss of precision at high order / tiny steps is a floating-point property and not covered by the term algebra",
     ]
     return rep.finish()
-
-
-def replay(rep_obj) -> int:
-    print(rep_obj.get("what"))
-    return 1
